@@ -38,11 +38,11 @@ class _Fwd(_types.ModuleType):
         return getattr(self.__dict__["_real"], n)
 
 
-def patch_attr(real_module, name, fake, prefix="taskiq"):
+def patch_attr(real_module, name, fake, prefix="taskiq", later_imports=False):
     """Wherever the package reaches `real_module.<name>` it gets `fake`: the object itself bound under any name
     (`from m import name [as x]`) and the module bound under any name (`import m [as x]`, `from pkg import m`) - the latter
     becomes a forwarding stand-in module that differs from the real one in the patched names only.  Call again with the real
-    object as `fake` to undo."""
+    object as `fake` to undo.  later_imports: see below."""
     real_obj = getattr(real_module, name)
     done = replace_everywhere(real_obj, fake, prefix)
     shim = _SHIMS.get(id(real_module))
@@ -50,4 +50,9 @@ def patch_attr(real_module, name, fake, prefix="taskiq"):
         shim = _SHIMS[id(real_module)] = _Fwd(real_module)
     shim.__dict__[name] = fake
     done += replace_everywhere(real_module, shim, prefix)
+    if later_imports:
+        # an import statement that RUNS LATER - inside a function of the package, or in a module of it first imported during a
+        # case - resolves through sys.modules, where the replacement of existing bindings cannot reach: it finds the forwarding
+        # stand-in module there (the real module when the patch is undone).  Modules already imported keep what they bound.
+        sys.modules[real_module.__name__] = real_module if fake is real_obj else shim
     return done
